@@ -155,6 +155,16 @@ pub fn gen160(tier: &str, r: &mut Rng, emit: &mut dyn FnMut(Vec<u64>)) {
         } }
         if s.chars().count() < maxl { for a in ALPHA.iter() { stack.push(format!("{}{}", s, a)); } }
     }
+    // values that only differ from plain text by white space at their ends (Unicode White_Space, not only ASCII)
+    for ws in ['\u{a0}', '\u{3000}', '\u{2003}', '\u{85}', '\u{b}', '\u{1680}', '\u{2028}', '\u{205f}', ' ', '\t', '\n', '\u{c}', '\r', '\u{200b}', '\u{feff}'] {
+        for body in ["", "ab", "a-b", "é", "a b"] { for (pre, suf) in [(true, false), (false, true), (true, true)] {
+            let val = format!("{}{}{}", if pre { ws.to_string() } else { String::new() }, body, if suf { ws.to_string() } else { String::new() });
+            for kind in 0..2u64 { for nl in [false, true] {
+                let links = vec![("/w".to_string(), vec![("k".to_string(), kind, val.clone(), 0), ("z".to_string(), kind, val.clone(), 0)]), ("/v".to_string(), vec![])];
+                let mut v = Vec::new(); write_doc_desc(&mut v, nl, &links); emit(v);
+            } }
+        } }
+    }
     for _ in 0..(if thorough { 200_000 } else { 8_000 }) {
         let mv = if r.chance(1, 10) { 40 } else { 6 };
         let (nl, links) = rand_doc(r, mv);
@@ -181,6 +191,25 @@ pub fn gen170(tier: &str, r: &mut Rng, emit: &mut dyn FnMut(Vec<u64>)) {
             idx[k] = 0;
         }
         if idx.len() > maxl { break; }
+    }
+    // attribute values in place: every value of length <= 6 (thorough 7) over {quote, backslash, a, ';', ','}
+    // after "<>;k=" (the unquoting paths see unterminated strings, text after the closing quote, escapes)
+    let valpha: [char; 5] = ['"', '\\', 'a', ';', ','];
+    let vmax = if thorough { 7 } else { 6 };
+    let mut idx: Vec<usize> = Vec::new();
+    loop {
+        let val: String = idx.iter().map(|&i| valpha[i]).collect();
+        let s = format!("<>;k={}", val);
+        let mut v = Vec::new(); wr_str(&mut v, &s); emit(v);
+        let mut k = idx.len();
+        loop {
+            if k == 0 { idx = vec![0; idx.len() + 1]; break; }
+            k -= 1;
+            idx[k] += 1;
+            if idx[k] < valpha.len() { break; }
+            idx[k] = 0;
+        }
+        if idx.len() > vmax { break; }
     }
     // random longer strings over a wider alphabet including 4-byte code points
     for _ in 0..(if thorough { 500_000 } else { 30_000 }) {
